@@ -221,6 +221,13 @@ def c19_7(ctx):
             ctx.fail(f, c, 'members are gathered from `%s`' % U(c.args[0].value.generators[0].iter))
         if kw(c, 'return_exceptions') is not None:
             ctx.fail(f, c, 'return_exceptions changes the results into exception objects')
+    ctx.count(1)
+    aw = [s for s in ast.walk(f.node) if isinstance(s, ast.If) and any(isinstance(r, ast.Return) and isinstance(r.value, ast.Await) and U(r.value.value) == v for r in s.body)]
+    if aw:
+        t = N(aw[0].test)
+        if t not in ('isinstance(%s, Awaitable)' % v, 'inspect.isawaitable(%s)' % v, 'isawaitable(%s)' % v, 'isinstance(%s, typing.Awaitable)' % v, 'isinstance(%s, collections.abc.Awaitable)' % v):
+            ctx.fail(f, aw[0], 'a leaf is awaited only when `%s`: Futures, Tasks and objects with __await__ are awaitables too and would be returned un-awaited' % U(aw[0].test),
+                     witness='waiter([asyncio.ensure_future(coro())])')
     rr = returns_of(f.node)
     txt = [N(r.value) for r in rr]
     ctx.count(1)
